@@ -16,6 +16,12 @@ from ECAgent.Core import (Model, Agent, Component, AgentNotFoundError, Duplicate
 from ECAgent.Environments import SpaceWorld, DiscreteWorld, LineWorld, GridWorld, PositionComponent
 
 
+
+def _fresh(tag):
+    """An equal but separately created int object (tags are compared by value, not by identity)."""
+    return int(str(tag)) if type(tag) is int else tag
+
+
 class A(Component):
     pass
 
@@ -233,7 +239,7 @@ class Driver:
     def op_agent(self, a, m, tag):
         a = tuple(a)
         mod = self.models[m][0]
-        ag = Agent(a[0], mod) if tag is None else Agent(a[0], mod, tag=tag)
+        ag = Agent(a[0], mod) if tag is None else Agent(a[0], mod, tag=_fresh(tag))
         self.agents[a] = ag
         self.emit({"op": "new_agent", "a": list(a), "m": m, "tag": ag.tag})
 
@@ -274,7 +280,7 @@ class Driver:
             exc = e
         self.emit({"op": "register", "a": list(a), "T": T}, exc)
 
-    def op_join(self, a, p, target=None):
+    def op_join(self, a, p, target=None, frac=False):
         ag = self.agents[tuple(a)]
         m = target or self.model_of(a)
         envr = self.env(m)
@@ -283,7 +289,15 @@ class Driver:
             if self.models[m][1] == "plain":
                 _m(envr, "add_agent", "addAgent")(ag)
             else:
-                envr.add_agent(ag, *[self.to_py(m, v) for v in p])
+                real = [self.to_py(m, v) for v in p]
+                if frac and self.scale(m) == 1:
+                    # a grid world: a coordinate outside the grid is requested half a cell nearer to it - still outside
+                    for ax, e in enumerate((envr.width, envr.height, envr.depth)):
+                        if e > 0 and real[ax] < 0:
+                            real[ax] += 0.5
+                        elif e > 0 and real[ax] > e - 1:
+                            real[ax] -= 0.5
+                envr.add_agent(ag, *real)
         except Exception as e:  # noqa: BLE001
             exc = e
         self.emit({"op": "join", "a": list(a), "m": m, "p": list(p) if self.models[m][1] != "plain" else []}, exc)
@@ -415,7 +429,7 @@ class Driver:
         self.emit(ev, exc)
 
     def _filter_args(self, tpl, tag):
-        return [TYPES[t] for t in tpl], ({} if tag is None else {"tag": tag})
+        return [TYPES[t] for t in tpl], ({} if tag is None else {"tag": _fresh(tag)})
 
     def op_get_agents(self, m, tpl, tag):
         args, kw = self._filter_args(tpl, tag)
@@ -596,7 +610,7 @@ def random_run(rng, *, kinds=("plain",), n_models=2, n_ids=3, length=40, mods="c
                 continue        # resident in another model's environment: one environment at a time
             p = None if cls == "plain" else [rng.choice(coord_pool(e, fine)) if rng.random() < 0.45 else
                                                (rng.randint(0, max(e - (0 if fine else 1), 0)) if e else 0) for e in ext]
-            do(["join", a, p])
+            do(["join", a, p] if rng.random() < 0.7 else ["join", a, p, None, True])
         elif op == "leave":
             do(["leave", m, rng.choice(ids + ["nobody"]) if rng.random() < 0.5 else a[0]])
         elif op == "lookup":
@@ -620,7 +634,7 @@ def random_run(rng, *, kinds=("plain",), n_models=2, n_ids=3, length=40, mods="c
             tpl = rng.sample(["A", "B", "C", "D", "Z"], rng.choice([0, 0, 1, 1, 2, 3]))
             if tpl and rng.random() < 0.2:
                 tpl = tpl + [rng.choice(tpl)]            # a template may name a type twice
-            tag = rng.choice([None, None, 0, 1, 7, 5])
+            tag = rng.choice([None, None, 5] + [t for t in tags if t is not None])
             if op == "pick":
                 do(["pick", m, tpl, tag, nseeds])
             else:
@@ -695,7 +709,7 @@ def program_from_walk(walk, probe=None, salt=0):
             a, m = args[0], args[1]
             add(["join", list(a), None if kinds[m] == "plain" else [0, 0, 0], m])
         elif name == "JoinRejectedOOB":
-            add(["join", list(args[0]), list(args[2]), args[1]])
+            add(["join", list(args[0]), list(args[2]), args[1], (salt + len(prog)) % 2 == 0])
         elif name in ("Leave", "LeaveRejected", "LeaveZombie"):
             add(["leave", args[0], args[1]])
         elif name in ("Attach", "OfferAttach"):
